@@ -468,6 +468,18 @@ fn c_cases(seed: u64, thorough: bool) -> Vec<CCase> {
             v.push(CCase { what: format!("bin-store lifetime={}", st.lifetime), uhash: enc_bin(&st), want: Some(expected(&st)) });
         } else {
             v.push(CCase { what: format!("text-store lifetime={}", st.lifetime), uhash: enc_text(&st), want: Some(expected(&st)) });
+            // round 3 (after the seeded change C19-text-uhash-crlf-header-rejected): the same store as the legacy engine writes
+            // it through a text-mode stream on Windows (CR LF line ends), and without the final line end
+            if i % 4 == 1 {
+                let crlf: Vec<u8> = enc_text(&st).iter().flat_map(|b| if *b == b'\n' { vec![b'\r', b'\n'] } else { vec![*b] }).collect();
+                v.push(CCase { what: format!("text-store-crlf lifetime={}", st.lifetime), uhash: crlf, want: Some(expected(&st)) });
+            } else {
+                let mut cut = enc_text(&st);
+                if cut.len() > 1 && cut.last() == Some(&b'\n') && st.recs.iter().any(|r| r.live()) {
+                    cut.pop();
+                    v.push(CCase { what: format!("text-store-no-final-newline lifetime={}", st.lifetime), uhash: cut, want: Some(expected(&st)) });
+                }
+            }
         }
     }
     v
